@@ -153,6 +153,17 @@ def gen_tables(P):
     with Lock("lean"):
         return gt.generate(P.srcdir, os.path.join(LEAN, "SakuraVerif", "Gen"))
 
+def restore_committed_gen():
+    """For the search only: put the translator's tables back as they are committed (the model of the unchanged code), when the
+       regenerated ones do not fit the model any more (a constant became an expression, a table changed its shape …)."""
+    ok = True
+    with Lock("lean"):
+        for f in ("Consts.lean", "Tables.lean"):
+            r = sh(["git", "-C", VERIF, "show", "HEAD:lean/SakuraVerif/Gen/" + f], check=False, timeout=60)
+            if r.returncode != 0 or not r.stdout.strip(): ok = False; continue
+            open(os.path.join(LEAN, "SakuraVerif", "Gen", f), "w").write(r.stdout)
+    return ok
+
 def lake_build(targets, timeout=3000):
     with Lock("lean"):
         r = sh(["lake", "build"] + targets, cwd=LEAN, check=False, timeout=timeout)
